@@ -117,20 +117,20 @@ Definition MQPost (c : caller) (fr fr' : option frame) (o : qout) (i : info) (n 
 (** * statements *)
 Definition msound_query (f : nat) : Prop :=
   forall inp X Y stk c fr n s o fr' ms s',
-    MInv p rk sB (X ++ Y) inp s -> StkOk rk stk n -> (is_cq c = false -> stk = []) -> nkind n <> KExternal ->
+    MInv p rk sB (X ++ Y) inp s -> StkOk rk stk n -> (is_cq c = false -> stk = []) ->
     MNPq c n s -> MFrPre c fr n s -> XMode c X -> QPreS c n Y s ->
     mquery f stk c fr n s = Ok (o, fr', ms, s') ->
     MInv p rk sB X inp s' /\ (is_cq c = true -> MKeeps s s') /\ ms = [] /\
     exists i, get_info s' n = Some i /\ i_verified i = s_ts s' /\ MQPost c fr fr' o i n.
 
 (** what [execute] and [repair] leave: the node verified, possibly with a window of its own *)
-Definition XPost (X : list node) (inp : inputs) (c : caller) (n : node) (s' : state) : Prop :=
+Definition XPost (X : list node) (inp : menv) (c : caller) (n : node) (s' : state) : Prop :=
   exists Y, MInv p rk sB (X ++ Y) inp s' /\ (c_follow c = false -> Y = []) /\
     (Y = [] \/ has_pending s' n = true) /\ (forall y, In y Y -> In y (proj_callers s' n)) /\ sverified s' n.
 
 Definition msound_execute (f : nat) : Prop :=
   forall inp X stk c n rc fr0 s ms s',
-    MInv p rk sB X inp s -> StkOk rk stk n -> (is_cq c = false -> stk = []) -> nkind n <> KExternal ->
+    MInv p rk sB X inp s -> StkOk rk stk n -> (is_cq c = false -> stk = []) ->
     FrEmpty fr0 -> ~ sverified s n ->
     (x_pedantic c = true \/ X = []) ->
     ((rc = true /\ MStaleV s n /\ (x_pedantic c = true \/ TfcOK s n)) \/ (rc = false /\ get_info s n = None)) ->
@@ -139,7 +139,7 @@ Definition msound_execute (f : nat) : Prop :=
 Definition msound_eval (f : nat) : Prop :=
   forall inp X stk n pd prev e fr s o fr' ms s',
     MInv p rk sB X inp s ->
-    (forall d, In d (expr_reads e) -> StkOk rk stk d /\ (rk d < rk n)%nat /\ nkind d <> KExternal) ->
+    (forall d, In d (expr_reads e) -> StkOk rk stk d /\ (rk d < rk n)%nat) ->
     MFrOk rk s n fr -> (pd = true \/ MPrevOK s prev) -> (pd = true \/ X = []) ->
     meval f stk (CQuery n true pd prev) e fr s = Ok (o, fr', ms, s') ->
     MInv p rk sB X inp s' /\ MKeeps s s' /\ ms = [] /\ MFrOk rk s' n fr' /\
@@ -163,17 +163,17 @@ Proof. intro f. apply (mmono_all p f). Qed.
 
 (** * the TFC repair of a root *)
 Lemma msound_tfc : forall f inp, msound_query f ->
-  forall ts s s', MInv p rk sB [] inp s -> (forall t, In t ts -> nkind t <> KExternal) -> mtfc p f [] ts s = Ok s' ->
+  forall ts s s', MInv p rk sB [] inp s -> mtfc p f [] ts s = Ok s' ->
     MInv p rk sB [] inp s' /\ forall t, In t ts -> sverified s' t.
 Proof.
-  intros f inp IHq. induction ts as [|t r IH]; intros s s' HI Hk H; cbn [mtfc] in H.
+  intros f inp IHq. induction ts as [|t r IH]; intros s s' HI H; cbn [mtfc] in H.
   - inversion H. subst. split; [exact HI|]. intros t [].
   - destruct (mquery f [] CRepairFirewall None t s) as [[[[o fr'] m'] s1]| | |] eqn:Eq; try discriminate.
     pose proof (mono_q f _ _ _ _ _ _ _ _ _ Eq) as M1.
     destruct (IHq inp [] [] [] CRepairFirewall None t s o fr' m' s1 HI (StkOk_nil rk t) (fun _ => eq_refl)
-                (Hk t (or_introl eq_refl)) I eq_refl eq_refl
+                I eq_refl eq_refl
                 (or_introl eq_refl) Eq) as (HI1 & _ & _ & i & Hi & Hv & _).
-    destruct (IH s1 s' HI1 (fun x Hx => Hk x (or_intror Hx)) H) as (HI2 & V2).
+    destruct (IH s1 s' HI1 H) as (HI2 & V2).
     assert (M2 : MonoR [] s1 s') by (eapply mmono_tfc; [apply mono_q|exact H]).
     split; [exact HI2|].
     intros x [<-|Hx]; [|apply V2; exact Hx]. eapply sverified_mono; [exact M2|]. exists i. auto.
@@ -190,8 +190,7 @@ Proof.
   - destruct (mquery f [] CBPP None q s) as [[[[o fr'] m'] s1]| | |] eqn:Eq; try discriminate.
     pose proof (mono_q f _ _ _ _ _ _ _ _ _ Eq) as M1.
     assert (HI0 : MInv p rk sB (X ++ []) inp s) by (rewrite app_nil_r; exact HI).
-    assert (Hkq : nkind q <> KExternal) by (rewrite (Hk q (or_introl eq_refl)); discriminate).
-    destruct (IHq inp X [] [] CBPP None q s o fr' m' s1 HI0 (StkOk_nil rk q) (fun _ => eq_refl) Hkq
+    destruct (IHq inp X [] [] CBPP None q s o fr' m' s1 HI0 (StkOk_nil rk q) (fun _ => eq_refl)
                 (Hk q (or_introl eq_refl)) eq_refl I (or_introl eq_refl) Eq) as (HI1 & _ & _ & i & Hi & Hv & _).
     destruct (IH s1 s' HI1 (fun x Hx => Hk x (or_intror Hx)) H) as (HI2 & M2 & V2).
     split; [exact HI2|]. split; [eapply MonoR_trans; eauto|].
@@ -262,14 +261,16 @@ Proof.
   - intro Hr. eapply MTStale_mono; eauto.
 Qed.
 
-Lemma input_Solid : forall Ex X inp s d, MInvE p rk sB Ex X inp s -> nkind d = KInput -> MSolid s d.
+Lemma leaf_Solid : forall Ex X inp s d, MInvE p rk sB Ex X inp s -> leaf d -> MSolid s d.
 Proof.
-  intros Ex X inp s d HI K. pose proof (minput_no_fwd _ _ _ _ _ _ _ _ HI K) as E0. split.
+  intros Ex X inp s d HI K. pose proof (mleaf_no_fwd _ _ _ _ _ _ _ _ HI K) as E0. split.
   - intros x Hx y Hy. inversion Hx; subst; [rewrite E0 in Hy; destruct Hy|].
     match goal with H : In _ (old_fwd s d) |- _ => rewrite E0 in H; destruct H end.
   - intros F [x (P1 & P2 & _)]. inversion P1; subst; [rewrite E0 in P2; destruct P2|].
     match goal with H : In _ (old_fwd s d) |- _ => rewrite E0 in H; destruct H end.
 Qed.
+Lemma input_Solid : forall Ex X inp s d, MInvE p rk sB Ex X inp s -> nkind d = KInput -> MSolid s d.
+Proof. intros Ex X inp s d HI K. eapply leaf_Solid; eauto. left. exact K. Qed.
 
 (** an edge that may be skipped: clean, outside a window, with the recorded firewalls verified *)
 Lemma mskip_done : forall inp s n i cal,
@@ -282,7 +283,7 @@ Proof.
   assert (i0 = i) by congruence. subst i0.
   split; [exists j, v, t; auto|]. split; [|split].
   - intro K. apply (HT i Hi). apply (proj1 (mi_tfc _ _ _ _ _ _ _ HI n i cal v t Hi C)). exact K.
-  - intro K. destruct (thru_stored _ _ _ _ _ _ _ _ _ HI B K) as [Kc|Kc]; [eapply input_Solid; eauto|].
+  - intro K. destruct (thru_stored _ _ _ _ _ _ _ _ _ HI B K) as [Kc|Kc]; [eapply leaf_Solid; eauto|].
     pose proof (MGoodX_nil _ _ (G K)) as Gc. split; [exact Gc|]. intros F HF.
     assert (HFj : In F (i_tfc j)) by (eapply MGood_reach_tfc; eauto).
     apply (HT i Hi). apply (proj2 (mi_tfc _ _ _ _ _ _ _ HI n i cal v t Hi C) Kc). apply (E K). exact HFj.
@@ -404,7 +405,11 @@ Proof.
         match type of Eq with query_for p None f _ (CQuery n false ?pc []) _ _ _ = _ => set (pcal := pc) in * end.
         assert (Hnpq : MNPq (CQuery n false pcal []) cal s).
         { cbn [MNPq]. destruct Hnp as [->|[_ HT]]; [left; reflexivity|].
-          destruct (mstored_kind _ _ _ _ _ _ _ _ _ HI Hci0) as [Kc|[Kc|Kc]]; [contradiction| |].
+          destruct (mstored_kind _ _ _ _ _ _ _ _ _ HI Hci0) as [Kc|[Kc|Kc]].
+          { (* a leaf (here: an external input) records no transitive firewall callees *)
+            right. right. intros j Hj F HF. assert (j = ci0) by congruence. subst j.
+            destruct (mi_kind _ _ _ _ _ _ _ HI cal ci0 Hci0) as [(_ & _ & _ & T & _)|(K2 & _)]; [rewrite T in HF; destruct HF|].
+            destruct Kc as [Kc|Kc]; rewrite Kc in K2; discriminate. }
           - right. left. apply (HT i Hi). apply (proj1 (mi_tfc _ _ _ _ _ _ _ HI n i cal ov otfc Hi Eo)). exact Kc.
           - assert (Ekf : kind_eqb (nkind cal) KFirewall = false).
             { destruct Kc as [Kc|Kc]; rewrite Kc; reflexivity. }
@@ -417,10 +422,8 @@ Proof.
         assert (Hxm : XMode (CQuery n false pcal []) X).
         { cbn [XMode]. destruct Hnp as [->|[HX _]]; [left; reflexivity|right; exact HX]. }
         assert (HIa : MInv p rk sB (X ++ []) inp s) by (rewrite app_nil_r; exact HI).
-        assert (Hkext : nkind cal <> KExternal).
-        { destruct (mstored_kind _ _ _ _ _ _ _ _ _ HI Hci0) as [Kc|[Kc|[Kc|Kc]]]; rewrite Kc; discriminate. }
         destruct (IHq inp X [] (n :: stk) (CQuery n false pcal []) (Some fr) cal s o fr1 m1 s' HIa
-                    (StkOk_lower _ _ _ _ Hstk Hrkc) (fun K => ltac:(discriminate K)) Hkext Hnpq
+                    (StkOk_lower _ _ _ _ Hstk Hrkc) (fun K => ltac:(discriminate K)) Hnpq
                     (ex_intro _ fr (conj eq_refl (conj Hscc Htfc))) Hxm (or_introl eq_refl) Eq)
           as (HI' & HK' & -> & ci & Hci & Hv & x' & -> & Sx & Tx).
         specialize (HK' eq_refl).
